@@ -31,7 +31,11 @@ pub fn check(sc: &Scenario, res: &RunResult) -> Vec<Violation> {
             out.push(v("C02", id, format!("budget exhausted after {} simulated calls / {} ms simulated time", k.seq, k.clock_ns / 1_000_000)));
         }
         for p in &k.gt.dev_opens {
-            let mapped = sc.world.regions.iter().any(|r| r.name.0 == *p);
+            let user = match &sc.workload {
+                Workload::Dump(dp) => dp.opts.user_mappings.iter().any(|u| u.name.as_ref().map(|n| n.0 == *p).unwrap_or(false)),
+                _ => false,
+            };
+            let mapped = user || sc.world.regions.iter().any(|r| r.name.0 == *p);
             if mapped {
                 out.push(v("C02", "dev-file-opened", format!("opened mapped file {}", String::from_utf8_lossy(p))));
             }
